@@ -51,7 +51,7 @@ CHECKS = {
         "random and from_dense (classmethod and utils helper) are called on the static class and on the dynamic class with the symmetry as string / object / omitted / mismatching, with the "
         "charge given and omitted, and each result is compared (symmetry, charge, index tables, sectors, blocks, dtype) with the harness's expectation; calls that must be refused must raise. "
         "Dense arrays under sorted, reversed, interleaved and seeded per-axis labelings are converted to blocks and compared with the harness's projection onto the conserving sectors "
-        "(reordered by charge, original position); to_dense is compared with the harness embedding; non-zero entries outside the conserving sectors are ignored / refused as documented.",
+        "(reordered by charge, original position); to_dense is compared with the harness embedding (fermionic structures carry pending signs); non-zero entries outside the conserving sectors are ignored / refused as documented; two arrays built from one caller mapping must not alias it.",
    note="Trusted: harness embedding / projection. from_blocks is compared on the charges that occur in the given blocks (it cannot know others)."),
  "C01": dict(engine="E-bfs", design_ref="DESIGN.md 5 C01, 4.3, 2.4",
    technique="explicit-state breadth-first search over operation sequences on the real objects, states canonicalised by structure key, independent validity audit evaluated on every transition's results",
@@ -81,7 +81,7 @@ CHECKS = {
    text="For float32, float64, complex64 and complex128, every catalogue operation (both fuse strategies, both contraction modes, fill_missing_blocks, densification, decompositions, arithmetic, phase "
         "operations, through methods / symmray functions / autoray) is applied to abelian arrays, fermionic arrays with pending signs and block vectors whose sparsity forces zero-block creation, and "
         "every core operation again to every result of the structure-creating ones. Every block of every result must carry the operand's dtype (the real counterpart for singular values, eigenvalues, "
-        "abs, norm), the value must match the same call in double precision, and numpy's ComplexWarning is turned into an error so a discarded imaginary part cannot pass silently.",
+        "abs, norm), the value must match the same call in double precision, numpy's ComplexWarning is turned into an error so a discarded imaginary part cannot pass silently, a complex diagonal on real data must promote to the complex counterpart, and 2- and 4-index structures are run in float64 first and then in another dtype within one process so that a plan cached for one element type is re-used for another.",
    note="Trusted: numpy promotion rules as reference for 'same type'. Arrays without blocks carry no dtype and are skipped. Decomposition values are judged in C11/C12."),
  "C11": dict(engine="E-enum", design_ref="DESIGN.md 5 C11",
    technique="exhaustive enumeration of matrix structures (charge subsets x block-shape patterns x directions x charges x sparsity x pending signs x dtype) on the real qr/svd/eigh/solve; oracle = reconstruction through the library's own contraction + blockwise structural laws",
@@ -142,7 +142,7 @@ CHECKS = {
    text="For every labelled simple graph on 2-5 sites (1094 graphs; spinless 6-site graphs sliced in thorough), with edges listed in ascending, descending and mixed orientation and two list orders, "
         "sites labelled by ints, tuples and strings, and coefficients given as scalars, dicts keyed in the reversed orientation and callables with bond- and site-dependent values, the two-site arrays "
         "returned by the spinless (Z2, U1) and spinful (Z2, U1, Z2Z2, U1U1) builders are read out with the documented charge maps, lifted to full-lattice operators and summed; the sum must equal "
-        "sum_bonds(-t hop + V n n) + sum_sites(U n_up n_down - mu n) exactly once per bond and per site. parse_edges_to_site_info is checked on the same inputs: one bond name per edge on exactly its two ends with "
+        "sum_bonds(-t hop + V n n) + sum_sites(U n_up n_down - mu n) exactly once per bond and per site. The caller's coefficient dicts must be unchanged by a build, and a second build after they were updated in place must use the new values. parse_edges_to_site_info is checked on the same inputs: one bond name per edge on exactly its two ends with "
         "opposite directions, coordination = degree, consistent lengths.",
    note="Trusted: Jordan-Wigner reference; conversion factor (-1)**(p(i')p(j')) between the documented element convention and the true dual basis (validated against C18). quimb-based builders (tfim, heisenberg) need a package that is not installed."),
  "C15": dict(engine="E-hist + E-sched", design_ref="DESIGN.md 5 C15",
